@@ -32,9 +32,9 @@ LEVELS = {'C08': 'exploration', 'C19': 'exploration'}
 PROBES = {
     'C08': ['framing.length', 'framing.chunked', 'framing.close', 'framing.none', 'truncated', 'surplus', 'keepalive_reuse', 'interim_response', 'ignore_length_option',
             'nobody_with_length', 'head_request', 'http10', 'lf_only', 'trailers', 'overrun_branch', 'metamorphic',
-            'cl_and_te', 'seg.bytes', 'seg.boundary'],
+            'cl_and_te', 'seg.bytes', 'seg.boundary', 'one_stream_object_for_all_exchanges'],
     'C19': ['coding.gzip', 'coding.deflate-zlib', 'coding.deflate-raw', 'coding.identity', 'first_piece_1byte',
-            'coded_truncated', 'coded_corrupt', 'metamorphic', 'framing.chunked', 'framing.close'],
+            'coded_truncated', 'coded_corrupt', 'metamorphic', 'framing.chunked', 'framing.close', 'one_stream_object_for_all_exchanges', 'surplus'],
 }
 _COMMON = {
     'components': {'real': ['wpull.protocol.http.client.Client/Session', 'wpull.protocol.http.stream.Stream',
@@ -130,7 +130,7 @@ class H:
     pass
 
 
-def execute(tape, script, r, seg_mode=None, vary_latency=True, timeout=60.0, ignore_length=False):
+def execute(tape, script, r, seg_mode=None, vary_latency=True, timeout=60.0, ignore_length=False, direct_stream=False):
     """Run the script through the real client. Returns list of outcome dicts."""
     h = H()
     h.script = script
@@ -190,10 +190,50 @@ def execute(tape, script, r, seg_mode=None, vary_latency=True, timeout=60.0, ign
                 out['t'] = loop.time()
                 return out
 
+            direct = {}
+
+            @asyncio.coroutine
+            def one_direct(i, resp):
+                # the same exchange driven through ONE Stream object for the whole script (the class is public API; what it
+                # keeps from one response - decoder, buffers - must not leak into the next)
+                from wpull.protocol.http.stream import Stream
+                out = {'i': i}
+                f = io.BytesIO()
+                try:
+                    if 'stream' not in direct:
+                        direct['conn'] = yield from pool.acquire('origin.test', 80, False)
+                        direct['stream'] = Stream(direct['conn'], keep_alive=True, ignore_length=ignore_length)
+                    stream = direct['stream']
+                    yield from stream.reconnect()
+                    request = Request('http://origin.test/r%d' % i, method=resp.method)
+                    request.address = direct['conn'].address
+                    yield from stream.write_request(request)
+                    response = yield from stream.read_response()
+                    response.request = request
+                    out['status'] = response.status_code
+                    out['reason'] = response.reason
+                    out['version'] = response.version
+                    yield from stream.read_body(request, response, file=f)
+                    out['fields'] = [(n.lower(), v) for n, v in response.fields.get_all()]
+                    out['ok'] = True
+                except (NetworkError, ProtocolError, ServerError, SSLVerificationError) as e:
+                    out['error'] = 'ProtocolError' if isinstance(e, ProtocolError) else 'NetworkError'
+                    out['error_type'] = type(e).__name__
+                    out['error_msg'] = str(e)[:200]
+                except (SimDeadlock, SimBudgetExceeded):
+                    raise
+                except Exception as e:
+                    out['error'] = 'OTHER'
+                    out['error_type'] = type(e).__name__
+                    out['error_msg'] = repr(e)[:300]
+                out['body'] = f.getvalue()
+                out['t'] = loop.time()
+                return out
+
             @asyncio.coroutine
             def main():
                 for i, resp in enumerate(script):
-                    o = yield from one(i, resp)
+                    o = yield from (one_direct if direct_stream else one)(i, resp)
                     outcomes.append(o)
                     # let deferred releases / connection_lost callbacks settle, as a crawler's next item would
                     yield from asyncio.sleep(0.001 if i % 2 == 0 else 0.5)
@@ -252,8 +292,6 @@ def judge(prop, r, script, outcomes, h, label=''):
                 p = prop
                 if 'timed out' in o.get('error_msg', '').lower():
                     cls = 'waits-for-forbidden-body' if ref.framing == 'none' else 'good-timeout'
-                if prop == 'C19' and not coded:
-                    continue
                 r.violate(p, cls, '%s:%s%s' % (cls, shape, ':' + resp.coding if coded else ''),
                           'exchange %d %s: complete well-formed response rejected with %s: %s%s'
                           % (i, resp.desc, o.get('error_type'), o.get('error_msg'), label))
@@ -264,7 +302,7 @@ def judge(prop, r, script, outcomes, h, label=''):
                 if _group(o['fields']) != _group(ref.fields):
                     r.violate(prop, 'wrong-fields', shape, 'exchange %d: fields %r, reference %r' % (i, o['fields'][:8], ref.fields[:8]))
             if o['body'] != ref.payload:
-                if prop == 'C08' or coded:
+                if True:        # identity bodies are bodies too (C19 names them): what an earlier coded response left behind must not touch them
                     r.violate(prop, 'wrong-body', '%s:%s' % (shape, resp.coding),
                               'exchange %d %s: body len %d differs from reference len %d (first diff at %s)%s'
                               % (i, resp.desc, len(o['body']), len(ref.payload), _first_diff(o['body'], ref.payload), label))
@@ -368,6 +406,13 @@ def run(tape, prop, tier):
             resp = httpgen.gen_response(tape, method='GET', allow_truncate=False, allow_surplus=False,
                                         allow_nobody_with_length=False, allow_lf=False, allow_fold=False)
             script.append(resp)
+        if not faults_on and tape.chance(1, 4, 'c19.surplus'):
+            # surplus bytes behind the last (length-delimited, coded) body, arriving in the same read as its end: they are not
+            # part of the coded stream and must not change what the decoder yields
+            last = script[-1]
+            if last.framing == 'length' and last.coded and len(last.coded) % 4096 and last.truncate_at is None:
+                last.surplus = tape.choice((b'\r\n', b'X', b'garbage after the message'), 'c19.surplus.kind')
+                last.desc['surplus'] = len(last.surplus)
         if faults_on:
             cands = [x for x in script if x.coding not in ('identity', 'gzip-identity')]
             if cands and damage_coded(tape, cands[tape.draw(len(cands), 'damage.which')]):
@@ -385,7 +430,10 @@ def run(tape, prop, tier):
             script.append(httpgen.gen_response(tape, method=method, allow_truncate=faults_on, allow_surplus=faults_on, allow_interim=(prop == 'C08'),
                                                allow_length_framing=not ignore_length))
         r.sub = 'faults' if faults_on else 'fault-free'
-    outcomes, h = execute(tape, script, r, ignore_length=(prop != 'C19' and ignore_length))
+    direct_stream = tape.chance(1, 5, 'direct_stream')
+    if direct_stream:
+        r.probes['one_stream_object_for_all_exchanges'] += 1
+    outcomes, h = execute(tape, script, r, ignore_length=(prop != 'C19' and ignore_length), direct_stream=direct_stream)
     judge(prop, r, script, outcomes, h)
     # metamorphic re-runs: same script, fixed segmentations, no latency variation
     meta = tape.chance(1, 4, 'metamorphic')
@@ -393,7 +441,7 @@ def run(tape, prop, tier):
         r.probes['metamorphic'] += 1
         results = []
         for mode in (0, 4, 3):
-            o2, h2 = execute(tape, script, r, seg_mode=mode, vary_latency=False, ignore_length=(prop != 'C19' and ignore_length))
+            o2, h2 = execute(tape, script, r, seg_mode=mode, vary_latency=False, ignore_length=(prop != 'C19' and ignore_length), direct_stream=direct_stream)
             judge(prop, r, script, o2, h2, label=' [metamorphic re-run, segmentation mode %d]' % mode)
             results.append([(o.get('status'), o.get('body'), o.get('error')) for o in o2])
         base = [(o.get('status'), o.get('body'), o.get('error')) for o in outcomes]
